@@ -198,6 +198,15 @@ Example ex_identical_nodes_distinct :
   let n := hd (Build_node "" [] fvds None None) w1 in node_json 0 n <> node_json 1 n.
 Proof. intro n. intro X. vm_compute in X. discriminate X. Qed.
 
+(* the semantic id folds in the sweep fingerprint on the current tree (fix commit): hard obligation *)
+Lemma gen_sem_includes_sweep : sem_includes_sweep = true.
+Proof. reflexivity. Qed.
+Theorem C05_semantic_id_discriminates_now : forall U5 H, hash_ok U5 -> hash_ok H ->
+  forall c1 c2, forallb node_ok c1 = true -> forallb node_ok c2 = true ->
+  semantic_id U5 H c1 = semantic_id U5 H c2 ->
+  (sem_fields c1 = sem_fields c2 /\ node_sems H c1 = node_sems H c2) \/ Collision U5 \/ Collision H.
+Proof. exact (C05_full gen_sem_includes_sweep). Qed.
+Print Assumptions C05_semantic_id_discriminates_now.
 Print Assumptions C05_dumps_tokens_injective.
 Print Assumptions C05_dumps_text_injective.
 Print Assumptions C05_node_uuid_distinct_in_pipeline.
